@@ -259,13 +259,32 @@ def _sets(T):
   return out
 
 
+def standalone_use(d, key):
+  """For a deterministic half of the sub-devices: the part is used and reported on its own (enumerated, mapped, its bounds and
+  constraints read, costed) BEFORE it is wrapped in an adaptor or put into a set - the previous window's stand-alone solve of a
+  rolling horizon.  Nothing the part keeps from that may leak into the composite built around it."""
+  if int(__import__('core').case_hash(key), 16) % 2:
+    return d
+  try:
+    z = np.zeros(d.shape)
+    d.leaf_devices()
+    dict(d.map(z))
+    list(d.mapDevices(z))
+    d.bounds
+    [c['fun'](z.reshape(-1)) for c in d.constraints]
+    d.cost(z, 0)
+  except Exception:
+    pass
+  return d
+
+
 def _build(T):
   import device_kit as dk
   k = T['kind']
   if k == 'leaf':
     return lg.build(T['leaf'])
   if k == 'mf':
-    return dk.MFDeviceSet(lg.build(T['leaf']), list(T['flows']))
+    return dk.MFDeviceSet(standalone_use(lg.build(T['leaf']), {'mf': T['id'], 'f': list(T['flows']), 'n': T['leaf']['n']}), list(T['flows']))
   if k == 'tworatio':
     # the ratios as a list or as a float ndarray (decided by the content), and for some trees a decoy adaptor built first from the
     # same argument objects: constructors and constraint builders must not modify what the caller passed
@@ -273,7 +292,7 @@ def _build(T):
     ratios = [float(T['ratios'][0]), float(T['ratios'][1])]
     if h % 2:
       ratios = np.array(ratios, dtype=float)
-    inner, flows, ct = lg.build(T['leaf']), list(T['flows']), 'eq' if T['eq'] else 'ineq'
+    inner, flows, ct = standalone_use(lg.build(T['leaf']), {'tr': T['id'], 'h': h}), list(T['flows']), 'eq' if T['eq'] else 'ineq'
     if h % 3 == 0:
       decoy = dk.TwoRatioMFDeviceSet(inner, flows, ratios, ct)
       for c in decoy.constraints:
@@ -283,7 +302,7 @@ def _build(T):
           except Exception:
             pass
     return dk.TwoRatioMFDeviceSet(inner, flows, ratios, ct)
-  kids = [_build(c) for c in T['kids']]
+  kids = [standalone_use(_build(c), {'kid': c['id'], 'of': T['id'], 'i': i, 'n': len(T['kids'])}) for i, c in enumerate(T['kids'])]
   if k == 'set':
     return dk.DeviceSet(T['id'], kids, py_sbounds(T['sbounds']))
   if k == 'subbal':
